@@ -216,7 +216,7 @@ def prop_final(case):
 # (iii) limiting cases
 # ---------------------------------------------------------------------------
 
-PAIRS = [(n, n.replace('SIS', 'SIR', 1)) for n in ac.ENTRIES if n.startswith('SIS') and 'super_compact' not in n
+PAIRS = [(n, n.replace('SIS', 'SIR', 1)) for n in ac.ENTRIES if n.startswith('SIS') and 'super_compact' not in n and '[' not in n
          and n.replace('SIS', 'SIR', 1) in ac.ENTRIES]
 
 
@@ -224,7 +224,7 @@ PAIRS = [(n, n.replace('SIS', 'SIR', 1)) for n in ac.ENTRIES if n.startswith('SI
 def limit_case(draw):
     which = draw(st.sampled_from(['tau0', 'gamma0']))
     if which == 'tau0':
-        name = draw(st.sampled_from(sorted(n for n, e in ac.ENTRIES.items() if not e.discrete and 'pref_mix' not in n)))
+        name = draw(st.sampled_from(sorted(n for n, e in ac.ENTRIES.items() if not e.discrete and 'pref_mix' not in n and '[' not in n)))
         c = draw(ac.analytic_case(names=[name], nmax=9))
         c['tau'] = 0.0
         c['gamma'] = draw(st.sampled_from([0.5, 1.0, 2.0, 0.3]))
@@ -241,6 +241,8 @@ def limit_case(draw):
         kmax = max(len(adj_[u]) for u in nodes_)
         c['tmax'] = c['tmin'] + min(c['tmax'] - c['tmin'], 3.0 / (c['tau'] * kmax))
     c['which'] = which
+    if ('individual_based' in c['entry'] or 'pair_based' in c['entry']) and '[' not in c['entry'] and draw(st.booleans()):
+        c['nodelist_perm'] = list(draw(st.permutations(list(range(len(c['gc']['nodes']))))))   # explicit nodelist in another order
     return c
 
 
